@@ -1,7 +1,16 @@
 """C05 — the learned vocabulary is exactly the tokens meeting every pruning constraint.
 Proof gate (Properties/C05.v) + exhaustive (count, total) sweep of the float32 occurrence-bound comparisons
 (implementation vs Model/K5_Float.v, Flocq) + correspondence of Model/K5_Vocab.v / K6_Reindex.v with
-preprocessing.py through seven entry points + property oracle (the statement evaluated directly in integers)."""
+preprocessing.py through eleven entry points + property oracle (the statement evaluated directly in integers, for
+the token stage and — independently of the model — for the n-gram second stage) on
+  * single calls: random corpora x random constraint combinations,
+  * a table-driven enumeration of every pattern of the four document bounds x occurrence/frequency bounds,
+    for unigram and n-gram vocabularies,
+  * histories: two or three successive fits / calls on different corpora that share the parameter OBJECTS
+    (the same excluded_tokens set / list / frozenset, the same token_dictionary dict, the same estimator); every
+    fit must give the vocabulary of its own corpus under the ORIGINAL parameter values and leave the parameter
+    objects unchanged (compared with snapshots taken before each call)."""
+import itertools
 import re
 from fractions import Fraction
 from . import common as C
@@ -62,6 +71,10 @@ ERR_CLASS = {1: "AssertionError", 2: "ZeroDivisionError"}
 BOUNDS = ["min_occ", "max_occ", "min_freq", "max_freq", "min_dococc", "max_dococc", "min_docfreq", "max_docfreq"]
 REGEX_POOL = ["a.*", ".", "[ab]+", "c\\d", "zz", ".*b", "a|b|ca", "..", ""]
 STR_VOCAB = ["a", "b", "ab", "ba", "c1", "c2", "ca", "d", "B", "aa", "e", "f0"]
+NGRAM_ENTRIES = ("ngram2", "ngramcooc", "ngramcooc_fit")       # vocabularies with a second (n-gram) stage
+ESTIMATOR_ENTRIES = ("cooc", "ngram1", "ngram2", "skipgram", "ngramcooc", "ngramcooc_fit")
+GIVEN_DICT_ENTRIES = ("preprocess", "cooc", "tree", "skipgram", "timed", "multi")
+DOC_BOUNDS = ("min_dococc", "max_dococc", "min_docfreq", "max_docfreq")
 
 
 # ------------------------------------------------------------------------------------------ rendering
@@ -122,10 +135,12 @@ def coq_case(case):
     e = case["entry"]
     if e == "tree":
         return "tree_vocab %s %s %s %s %s" % (m, coq_cfg(case, rk, tree=True), docs, d0, mask)
-    if e == "ngram2":
+    if e in NGRAM_ENTRIES:
         ng = case["ngram"]
         return "ngram_vocab_fl %s %s %s %s %s %d%%nat" % (m, coq_cfg(case, rk), docs, mask,
                                                          C.coq_bool(ng["behaviour"] == "subgrams"), ng["n"])
+    if e == "prune":            # prune_token_dictionary on the tables preprocess_token_sequences builds
+        return "learn_vocab_fl %s %s %s None" % (m, coq_cfg(case, rk), docs)
     return "proj (preprocess_fl %s %s %s %s %s)" % (m, coq_cfg(case, rk), docs, d0, mask)
 
 
@@ -143,89 +158,203 @@ def lt_decide(c, n, f):
     return q < F
 
 
-def spec(case):
-    """The property's own statement, in exact integer / rational arithmetic.  Returns
-       {"error": True}                       invalid configuration (malformed stream: must raise)
-       {"given": [...pairs]}                 a supplied dictionary is used as given
-       {"status": {tok: True|False|None}, "counts":…, "k":…}   per-token verdict of the non-top-k constraints."""
-    cfg, docs = case["cfg"], case["docs"]
-    flat = [t for d in docs for t in d]
-    n, nd = len(flat), len(docs)
-    if case.get("dict") is not None:
-        return {"given": case["dict"]}
+def invalid_bounds(cfg, n, nd):
+    """The configurations the property does not quantify over (the code is only required to raise): an occurrence
+    bound on an empty total (the frequency is 0/0), or an occurrence AND a frequency bound on the same side that
+    disagree (the docstring: 'if both are provided they must agree')."""
     for occ, frq, tot in (("min_occ", "min_freq", n), ("max_occ", "max_freq", n),
                           ("min_dococc", "min_docfreq", nd), ("max_dococc", "max_docfreq", nd)):
         if cfg[occ] is not None and (tot == 0 or (cfg[frq] is not None and cfg[occ] / tot != cfg[frq])):
-            return {"error": True}
+            return "zero-total" if tot == 0 else "disagree"
+    return None
+
+
+def judge(item_docs, cfg, excluded=(), regex=None):
+    """The constraints of the property statement, evaluated pointwise in exact integer / rational arithmetic on a
+    corpus of documents of hashable items (tokens, or n-grams for the second stage).
+    Returns ({item: True | False | None}, counts): True = meets every configured constraint, None = a frequency
+    bound is too close to the item's exact frequency to be judged at float32 precision."""
+    flat = [t for d in item_docs for t in d]
+    n, nd = len(flat), len(item_docs)
     counts, dcounts = {}, {}
     for t in flat:
         counts[t] = counts.get(t, 0) + 1
-    for d in docs:
+    for d in item_docs:
         for t in set(d):
             dcounts[t] = dcounts.get(t, 0) + 1
     status = {}
     for t in counts:
-        v = True
-        conds = [t not in (cfg["excluded"] or []),
-                 not (cfg["regex"] is not None and isinstance(t, str) and re.fullmatch(cfg["regex"], t) is not None)]
-        c, dc = counts[t], dcounts[t]
-        if cfg["min_occ"] is not None:
-            conds.append(c >= cfg["min_occ"])
-        elif cfg["min_freq"] is not None:
-            r = lt_decide(c, n, cfg["min_freq"])
-            conds.append(None if r is None else not r)
-        if cfg["max_occ"] is not None:
-            conds.append(c <= cfg["max_occ"])
-        elif cfg["max_freq"] is not None:
-            r = lt_decide(c, n, cfg["max_freq"])           # c/n > f  <=>  not (c/n < f) and not equal
-            if r is None:
-                conds.append(None)
-            else:
-                conds.append(r or Fraction(c, n) == Fraction(cfg["max_freq"]) or c / n == cfg["max_freq"])
-        if cfg["min_dococc"] is not None:
-            conds.append(dc >= cfg["min_dococc"])
-        elif cfg["min_docfreq"] is not None:
-            r = lt_decide(dc, nd, cfg["min_docfreq"])
-            conds.append(None if r is None else not r)
-        if cfg["max_dococc"] is not None:
-            conds.append(dc <= cfg["max_dococc"])
-        elif cfg["max_docfreq"] is not None:
-            r = lt_decide(dc, nd, cfg["max_docfreq"])
-            if r is None:
-                conds.append(None)
-            else:
-                conds.append(r or Fraction(dc, nd) == Fraction(cfg["max_docfreq"]) or dc / nd == cfg["max_docfreq"])
-        if any(x is False for x in conds):
-            v = False
-        elif any(x is None for x in conds):
-            v = None
-        status[t] = v
+        conds = [t not in excluded,
+                 not (regex is not None and isinstance(t, str) and re.fullmatch(regex, t) is not None)]
+        for lo, occ, frq, c, tot in ((True, "min_occ", "min_freq", counts[t], n),
+                                     (False, "max_occ", "max_freq", counts[t], n),
+                                     (True, "min_dococc", "min_docfreq", dcounts[t], nd),
+                                     (False, "max_dococc", "max_docfreq", dcounts[t], nd)):
+            if cfg[occ] is not None:
+                conds.append(c >= cfg[occ] if lo else c <= cfg[occ])
+            elif cfg[frq] is not None:
+                r = lt_decide(c, tot, cfg[frq])                      # c/tot < f ?
+                if r is None:
+                    conds.append(None)
+                elif lo:
+                    conds.append(not r)
+                else:                                                # kept iff c/tot <= f
+                    conds.append(r or Fraction(c, tot) == Fraction(cfg[frq]) or c / tot == cfg[frq])
+        status[t] = False if any(x is False for x in conds) else None if any(x is None for x in conds) else True
+    return status, counts
+
+
+def spec(case):
+    """The property's own statement for the token stage.  Returns
+       {"error": reason}                     invalid configuration (malformed stream: must raise)
+       {"given": [...pairs]}                 a supplied dictionary is used as given
+       {"status": {tok: True|False|None}, "counts":…, "k":…}   per-token verdict of the non-top-k constraints."""
+    cfg, docs = case["cfg"], case["docs"]
+    if case.get("dict") is not None:
+        return {"given": case["dict"]}
+    bad = invalid_bounds(cfg, sum(len(d) for d in docs), len(docs))
+    if bad:
+        return {"error": bad}
+    status, counts = judge(docs, cfg, cfg["excluded"] or (), cfg["regex"])
     return {"status": status, "counts": counts, "k": None if case["entry"] == "tree" else cfg["max_unique"]}
+
+
+def must_keep(sp):
+    """The items that are certainly in the vocabulary: those meeting every constraint, unless max_unique_tokens = k
+    forces a reduction, in which case those strictly more frequent than the (k+1)-th most frequent of them (there
+    are at most k, so nothing in 'reduced to at most k tokens' lets them go).  None = cannot be told (a frequency
+    too close to a bound)."""
+    st, counts, k = sp["status"], sp["counts"], sp["k"]
+    sure = [t for t in st if st[t] is True]
+    if k is None:
+        return sure
+    if any(v is None for v in st.values()):
+        return None
+    if len(sure) <= k:
+        return sure
+    cut = sorted((counts[t] for t in sure), reverse=True)[k]
+    return [t for t in sure if counts[t] > cut]
+
+
+def expected_vocab(sp):
+    """The vocabulary as a set when the statement determines it (no undecided frequency; with max_unique_tokens
+    only when no reduction is needed); None otherwise."""
+    st, k = sp["status"], sp["k"]
+    if any(v is None for v in st.values()):
+        return None
+    sure = set(t for t in st if st[t])
+    return sure if (k is None or len(sure) <= k) else None
+
+
+def py_ngrams(seq, n, behaviour):
+    """ngrams_of, from its docstring: the windows of exactly n ('exact') or of 1..n ('subgrams') consecutive items."""
+    return [tuple(seq[i:i + j]) for i in range(len(seq)) for j in ([n] if behaviour == "exact" else range(1, n + 1))
+            if i + j <= len(seq)]
+
+
+def ngram_spec(case, token_index):
+    """The property's statement for the second stage (ngram_size >= 2), independent of the model: given the learned
+    token dictionary, the documents are pruned of (or, with a mask string, masked at) the tokens outside it, and the
+    kept n-grams are exactly the n-grams of those documents whose occurrence count / frequency among all n-grams
+    and whose document count / document frequency meet the configured bounds (each bound alone or combined),
+    reduced to the max_unique_tokens most frequent; indexed 0..m-1 in sorted order of their token-index tuples."""
+    cfg, mask, ng = case["cfg"], case.get("mask"), case["ngram"]
+    vocab = set(token_index) - {mask}
+    if mask is None:
+        seqs = [[t for t in d if t in vocab] for d in case["docs"]]
+    else:
+        seqs = [[t if t in vocab else mask for t in d] for d in case["docs"]]
+    gram_docs = [py_ngrams(s, ng["n"], ng["behaviour"]) for s in seqs]
+    bad = invalid_bounds(cfg, sum(len(g) for g in gram_docs), len(gram_docs))
+    status, counts = judge(gram_docs, cfg)
+    return {"status": status, "counts": counts, "k": cfg["max_unique"], "error": bad,
+            "order": lambda g: tuple(token_index[t] for t in g)}
+
+
+def check_kept(kept, sp, noun):
+    """kept = the learned vocabulary (list of items); sp = status / counts / k of the stage."""
+    st, counts, k = sp["status"], sp["counts"], sp["k"]
+    fails = []
+    for t in kept:
+        if t not in st:
+            fails.append("%s %r is in the vocabulary but does not occur" % (noun, t))
+        elif st[t] is False:
+            fails.append("%s %r kept although it violates a constraint (count %d)" % (noun, t, counts[t]))
+    if len(set(kept)) != len(kept):
+        fails.append("%s listed twice" % noun)
+    mk = must_keep(sp)
+    for t in mk or []:
+        if t not in kept:
+            fails.append("%s %r meets every constraint (count %d) but was pruned" % (noun, t, counts[t]))
+    if k is not None:
+        if len(kept) > k:
+            fails.append("%d %ss kept, max_unique_tokens=%d" % (len(kept), noun, k))
+        if mk is not None:
+            dropped = [t for t in st if st[t] is True and t not in kept]
+            if kept and dropped and all(t in counts for t in kept) and \
+                    min(counts[t] for t in kept) <= max(counts[t] for t in dropped):
+                fails.append("a kept %s is not more frequent than a dropped one: kept %r dropped %r" %
+                             (noun, sorted((counts[t], t) for t in kept)[:2], sorted((counts[t], t) for t in dropped)[-2:]))
+    return fails
+
+
+def both_given(cfg):
+    return (cfg["min_occ"] is not None and cfg["min_freq"] is not None) or \
+        (cfg["max_occ"] is not None and cfg["max_freq"] is not None)
+
+
+def check_error(case, sp, got):
+    """The call raised.  Allowed: invalid configurations; 'vocabulary is empty' ValueErrors of the co-occurrence
+    vectorizers when no item is certain to be kept; in the second stage an occurrence bound when there is no
+    n-gram at all (k / 0) or an occurrence and a frequency bound on one side (they cannot agree on both stages:
+    outside 'occurrence OR frequency bounds')."""
+    if sp.get("error"):
+        return []
+    e, entry = got["err"], case["entry"]
+    bad = ["raised %s: %s" % (e, got.get("msg", ""))]
+    if "status" not in sp:
+        return bad
+    if e == "ValueError" and entry == "cooc":
+        mk = must_keep(sp)
+        return ["ValueError although %r meet every constraint" % mk[:3]] if mk else []
+    if entry not in NGRAM_ENTRIES:
+        return bad
+    if e == "ValueError" and entry == "ngram2":
+        return bad
+    ev = expected_vocab(sp)
+    if ev is None:
+        # the token stage is not determined by the statement (a frequency too close to a bound, or a reduction to
+        # max_unique_tokens): only the exceptions the second stage can legitimately raise pass, and the model
+        # correspondence decides
+        cfg = case["cfg"]
+        ok = (e == "ZeroDivisionError" and (cfg["min_occ"] is not None or cfg["max_occ"] is not None)) or \
+            (e == "AssertionError" and both_given(cfg)) or (e == "ValueError" and entry != "ngram2")
+        return [] if ok else bad
+    index = {t: i for i, t in enumerate(sorted(ev))}
+    if case.get("mask") is not None:
+        index[case["mask"]] = len(index)
+    sp2 = ngram_spec(case, index)
+    if e == "ValueError":                # ngramcooc: 'Token dictionary is empty' / 'ngram dictionary is empty'
+        mk = must_keep(sp2)
+        if ev and mk and not sp2["error"]:
+            return ["ValueError although the n-grams %r meet every constraint" % mk[:3]]
+        return []
+    if e == "ZeroDivisionError" and sp2["error"] == "zero-total":
+        return []
+    if e == "AssertionError" and sp2["error"] == "disagree" and both_given(case["cfg"]):
+        return []
+    return bad
 
 
 def check_property(case, sp, got):
     """Returns a list of failure descriptions (empty = the property holds on this output)."""
     fails = []
     if "err" in got:
-        if sp.get("error"):
-            return []
-        if got["err"] == "ValueError" and case["entry"] == "cooc" and "status" in sp:
-            st = sp["status"]
-            must = [t for t in st if st[t] is True]
-            k = sp["k"]
-            if must and (k is None or k >= len(st)):
-                fails.append("ValueError although %r meet every constraint" % must[:3])
-            return fails
-        if case["entry"] == "ngram2" and got["err"] in ("ZeroDivisionError", "AssertionError") and \
-                any(case["cfg"][b] is not None for b in ("min_occ", "max_occ", "min_dococc", "max_dococc")):
-            # second stage: an occurrence bound is divided by the number of n-grams (0 when every document is
-            # shorter than n after pruning) / compared with a frequency given for the token stage.  The property
-            # does not say when this must raise; the model correspondence predicts the exception class.
-            return []
-        return ["raised %s: %s" % (got["err"], got.get("msg", ""))]
+        return check_error(case, sp, got)
     if sp.get("error"):
         return ["invalid configuration (occurrences and frequency disagree / empty corpus) did not raise"]
     d = [(k, v) for k, v in got["dict"]]
+    full_index = {k: v for k, v in d}
     mask = case.get("mask")
     if mask is not None:
         if not d or d[-1][0] != mask:
@@ -241,29 +370,29 @@ def check_property(case, sp, got):
         if d != exp:
             fails.append("supplied dictionary not used as given: %r vs %r" % (d[:6], exp[:6]))
         return fails
-    st, counts, k = sp["status"], sp["counts"], sp["k"]
     kept = [t for t, _ in d]
-    for t in kept:
-        if t not in st:
-            fails.append("token %r is in the vocabulary but does not occur" % (t,))
-        elif st[t] is False:
-            fails.append("token %r kept although it violates a constraint (count %d)" % (t, counts[t]))
-    sure = [t for t in st if st[t] is True]
-    maybe = [t for t in st if st[t] is None]
-    if k is None or (not maybe and len(sure) <= k):
-        for t in sure:
-            if t not in kept:
-                fails.append("token %r meets every constraint (count %d) but was pruned" % (t, counts[t]))
-    if k is not None:
-        if len(kept) > k:
-            fails.append("%d tokens kept, max_unique_tokens=%d" % (len(kept), k))
-        if not maybe:
-            dropped = [t for t in sure if t not in kept]
-            if kept and dropped and all(t in counts for t in kept) and min(counts[t] for t in kept) <= max(counts[t] for t in dropped):
-                fails.append("a kept token is not more frequent than a dropped one: kept %r dropped %r" %
-                             (sorted((counts[t], t) for t in kept)[:2], sorted((counts[t], t) for t in dropped)[-2:]))
+    fails += check_kept(kept, sp, "token")
     if [v for _, v in d] != list(range(len(d))) or kept != sorted(kept):
         fails.append("indices are not 0..n-1 in sorted token order: %r" % (d[:8],))
+    if fails or case["entry"] not in NGRAM_ENTRIES:
+        return fails
+    # ---- second stage: the n-gram vocabulary, judged against the token dictionary just validated
+    sp2 = ngram_spec(case, full_index)
+    if sp2["error"]:
+        # no n-gram at all under an occurrence bound / both kinds of bound on one side: only an exception or
+        # (zero total) an empty vocabulary make sense; nothing else is demanded
+        if sp2["error"] == "zero-total" and got["columns"]:
+            fails.append("n-grams %r kept although the documents have no n-gram" % got["columns"][:3])
+        return fails
+    cols = [(tuple(g), i) for g, i in got["columns"]]
+    grams = [g for g, _ in cols]
+    fails += check_kept(grams, sp2, "n-gram")
+    try:
+        in_order = grams == sorted(grams, key=sp2["order"])
+    except KeyError:
+        in_order = True                  # an n-gram over unknown tokens: already reported by check_kept
+    if [i for _, i in cols] != list(range(len(cols))) or not in_order:
+        fails.append("n-gram indices are not 0..m-1 in sorted order: %r" % (cols[:8],))
     return fails
 
 
@@ -303,71 +432,311 @@ def pick_bound(rng, values, total, allow_freq=True):
     return None, rng.choice([0.0, 0.1, 0.25, 0.3, 0.5, 0.7, 1.0, 1.5, -0.5])
 
 
-def gen_case(rng):
-    ints = rng.random() < 0.15
-    docs, vocab = gen_docs(rng, ints)
-    flat = [t for d in docs for t in d]
-    n, nd = len(flat), len(docs)
+def count_tables(item_docs):
     counts, dcounts = {}, {}
-    for t in flat:
-        counts[t] = counts.get(t, 0) + 1
-    for d in docs:
+    for d in item_docs:
+        for t in d:
+            counts[t] = counts.get(t, 0) + 1
         for t in set(d):
             dcounts[t] = dcounts.get(t, 0) + 1
+    return counts, dcounts
+
+
+def shape_step(rng, entry, docs, vocab):
+    """The per-call part of a case: the documents in the form the entry point accepts."""
+    step = {"docs": [list(d) for d in docs]}
+    if entry in ("tree", "timed", "multi"):
+        # tree: a path needs a node; timed: see gen_case; multi: semi_flatten raises IndexError on a document
+        # without tokens
+        step["docs"] = [d for d in step["docs"] if d] or [[vocab[0]]]
+    if entry == "multi":
+        md = []
+        for d in step["docs"]:
+            ms, i = [], 0
+            while i < len(d):
+                k = rng.randint(1, 3)
+                ms.append(d[i:i + k])
+                i += k
+            md.append(ms)
+        step["multi_docs"] = md
+    if entry in ESTIMATOR_ENTRIES + ("tree",) and not any(step["docs"]):
+        step["docs"][0] = [vocab[0]]
+    return step
+
+
+def gen_case(rng):
+    return gen_case_vocab(rng)[0]
+
+
+def gen_case_vocab(rng):
+    ints = rng.random() < 0.15
+    docs, vocab = gen_docs(rng, ints)
+    counts, dcounts = count_tables(docs)
+    n, nd = sum(len(d) for d in docs), len(docs)
+    r = rng.random()
+    entry = ("preprocess" if r < 0.34 else "prune" if r < 0.42 else "ngram1" if r < 0.48 else "ngram2" if r < 0.6
+             else "ngramcooc" if r < 0.66 else "skipgram" if r < 0.72 else "cooc" if r < 0.78 else "tree" if r < 0.86
+             else "timed" if r < 0.93 else "multi")
     cfg = {}
     cfg["min_occ"], cfg["min_freq"] = pick_bound(rng, set(counts.values()), n)
     cfg["max_occ"], cfg["max_freq"] = pick_bound(rng, set(counts.values()), n)
     cfg["min_dococc"], cfg["min_docfreq"] = pick_bound(rng, set(dcounts.values()), nd)
     cfg["max_dococc"], cfg["max_docfreq"] = pick_bound(rng, set(dcounts.values()), nd)
+    if entry in NGRAM_ENTRIES:
+        # an occurrence AND a frequency bound on the same side cannot agree on both stages (the totals differ): the
+        # n-gram stage asserts.  The property speaks of 'occurrence or frequency bounds': one kind per side here
+        for occ, frq in (("min_occ", "min_freq"), ("max_occ", "max_freq")):
+            if cfg[occ] is not None and cfg[frq] is not None and cfg[occ] / max(n, 1) == cfg[frq]:
+                cfg[rng.choice([occ, frq])] = None
     cfg["max_unique"] = rng.randint(0, len(counts) + 1) if rng.random() < 0.35 else None
     cfg["excluded"] = None
     if rng.random() < 0.3:
         pool = list(vocab) + ([99] if ints else ["zzz"])
         cfg["excluded"] = rng.sample(pool, rng.randint(0, min(3, len(pool))))
     cfg["regex"] = rng.choice(REGEX_POOL) if (not ints and rng.random() < 0.25) else None
-    r = rng.random()
-    entry = ("preprocess" if r < 0.5 else "ngram1" if r < 0.58 else "ngram2" if r < 0.7 else "cooc" if r < 0.78
-             else "tree" if r < 0.86 else "timed" if r < 0.93 else "multi")
-    case = {"kind": "vocab", "entry": entry, "docs": docs, "cfg": cfg, "dict": None, "mask": None}
-    if rng.random() < 0.25:
+    case = {"kind": "vocab", "entry": entry, "docs": docs, "cfg": cfg, "dict": None, "mask": None,
+            "excl_type": rng.choice(["set", "set", "list", "frozenset"])}
+    if rng.random() < 0.25 and entry not in ("skipgram", "prune"):       # these two take no mask string
         case["mask"] = -77 if ints else "MASK"
-    if entry in ("preprocess", "cooc", "tree") and rng.random() < 0.12:
+    if entry in GIVEN_DICT_ENTRIES and rng.random() < 0.12:
         pool = list(vocab) + ([50, 51] if ints else ["x1", "x2"])
         ks = rng.sample(pool, rng.randint(1, len(pool)))
         case["dict"] = [[k, i] for i, k in enumerate(ks)]
-    if entry == "ngram2":
+    if entry in NGRAM_ENTRIES:
         case["ngram"] = {"n": rng.choice([2, 2, 3]), "behaviour": rng.choice(["exact", "exact", "subgrams"])}
+        if entry != "ngram2":
+            case["ngram"]["behaviour"] = "exact"
     if entry == "tree":
         cfg["max_unique"] = None
-        case["docs"] = [d for d in docs if d] or [[vocab[0]]]
-    if entry == "timed":
-        # an empty (token, time) document becomes a 1-d float32 array that numba's typed List rejects next to the
-        # 2-d ones (AssertionError inside numba; unrelated to the vocabulary) — generate non-empty documents only
-        case["docs"] = [d for d in docs if d] or [[vocab[0]]]
-    if entry == "multi":
-        # semi_flatten raises IndexError on a document without tokens
-        case["docs"] = [d for d in docs if d] or [[vocab[0]]]
-        md = []
-        for d in case["docs"]:
-            ms, i = [], 0
-            while i < len(d):
-                s = rng.randint(1, 3)
-                ms.append(d[i:i + s])
-                i += s
-            md.append(ms)
-        case["multi_docs"] = md
-    if entry in ("cooc", "ngram1", "ngram2", "tree") and not any(case["docs"]):
-        case["docs"][0] = [vocab[0]]
+    case.update(shape_step(rng, entry, docs, vocab))
     if entry == "timed" and case["mask"] is None:
-        # delete mode: a document that loses all its tokens becomes the same 1-d empty array and crashes the typed
-        # List (not owned here, reported): switch to mask mode unless every document certainly keeps a token
+        # delete mode: a document that loses all its tokens becomes a 1-d empty array that numba's typed List
+        # rejects next to the 2-d ones (not owned here, reported): mask mode unless every document certainly
+        # keeps a token
         sp = spec(case)
         if "status" not in sp or cfg["max_unique"] is not None or \
                 any(all(sp["status"].get(t) is not True for t in d) for d in case["docs"]):
             case["mask"] = -77 if ints else "MASK"
-    if rng.random() < 0.15 and entry != "ngram2":      # n-grams depend on the token order; the token dictionary does not
+    if rng.random() < 0.15 and entry not in NGRAM_ENTRIES:   # n-grams depend on the token order; the token dictionary does not
         case["shuffle_seed"] = rng.randint(0, 10 ** 6)
+    return case, vocab
+
+
+# ---- table-driven enumeration of the bound patterns
+DOC_PATTERNS = [p for r in range(5) for p in itertools.combinations(DOC_BOUNDS, r)]          # 16 subsets
+SIDE_KINDS = (None, "occ", "freq", "both")
+TOK_PATTERNS = list(itertools.product(SIDE_KINDS, SIDE_KINDS))                               # (min side, max side)
+UNIGRAM_ROTATION = ("preprocess", "prune", "ngram1", "skipgram", "cooc", "timed", "multi", "tree")
+NGRAM_ROTATION = (("ngram2", 2, "exact"), ("ngram2", 2, "subgrams"), ("ngramcooc", 2, "exact"), ("ngram2", 3, "exact"))
+
+
+def table_docs(rng, phrases=False):
+    """Small vocabulary, several documents: tokens and n-grams recur within and across documents, so that every
+    kind of bound has something to prune and something to keep.  phrases: documents are concatenations of a few
+    fixed phrases, so that n-grams occur about as often as tokens (a bound then bites on both stages)."""
+    vocab = rng.sample(STR_VOCAB, rng.choice([2, 3, 3, 4] if not phrases else [3, 4, 5]))
+    weights = [rng.choice([1, 2, 3]) for _ in vocab]
+    if phrases:
+        pool = [rng.sample(vocab, rng.randint(2, len(vocab))) for _ in range(rng.choice([2, 3]))]
+        docs = [[t for ph in rng.choices(pool, k=rng.choice([1, 2, 2, 3])) for t in ph] for _ in range(rng.choice([2, 3, 4, 5]))]
+    else:
+        docs = [rng.choices(vocab, weights, k=rng.choice([2, 3, 4, 5, 6, 8])) for _ in range(rng.choice([2, 3, 4, 5]))]
+    if rng.random() < 0.3:
+        docs.insert(rng.randint(0, len(docs)), rng.choice([[], [vocab[0]]]))
+    return docs, vocab
+
+
+def boundary(rng, values, low):
+    """A bound on (or next to) a count that occurs, from the lower half for a minimum, the upper half for a maximum."""
+    vs = sorted(values) or [1]
+    half = vs[:(len(vs) + 1) // 2] if low else vs[len(vs) // 2:]
+    return max(0, rng.choice(half) + rng.choice([0, 0, 0, 1 if low else -1, -1 if low else 1]))
+
+
+def target_values(rng, level, docs):
+    """Bound values around one item of the level the bounds finally bite on (a token, or an n-gram of the unpruned
+    documents): minima at its own counts, maxima at the largest counts among its tokens (which are never rarer than
+    the n-gram), so that the item survives the whole combination while rarer / commoner items do not; each bound is
+    thus exactly on a boundary ('a token occurring exactly the bound is kept').  Returned per bound: (k, total)."""
+    counts, dcounts = count_tables(level)
+    tcounts, tdcounts = count_tables(docs)
+    n, nt, nd = sum(len(d) for d in level), sum(len(d) for d in docs), len(docs)
+    if not counts:
+        return None
+    items = sorted(counts, key=lambda g: (counts[g], dcounts[g], str(g)))
+    g = items[rng.randint(len(items) // 3, max(len(items) // 3, (2 * len(items)) // 3))]
+    toks = list(g) if isinstance(g, tuple) else [g]
+    return {"min_occ": (counts[g], n), "max_occ": (max(tcounts[t] for t in toks), nt),
+            "min_freq": min((counts[g], n), (min(tcounts[t] for t in toks), nt), key=lambda p: Fraction(*p)),
+            "max_freq": max((counts[g], n), (max(tcounts[t] for t in toks), nt), key=lambda p: Fraction(*p)),
+            "min_dococc": (dcounts[g], nd), "max_dococc": (max(tdcounts[t] for t in toks), nd),
+            "min_docfreq": (dcounts[g], nd), "max_docfreq": (max(tdcounts[t] for t in toks), nd)}
+
+
+def table_case(rng, i, stage, dp, tp, single=False, rot=None):
+    """One case of the table: document-bound pattern dp, (min side, max side) token-bound pattern tp.  single: the
+    case has exactly one bound (second block of the table) — no other pruning parameter; a lone maximum on the
+    n-gram stage can only bite through n-grams of the mask, so: mask mode and a bound below the commonest tokens."""
+    single_max = single and stage == "ngram" and (any(b.startswith("max") for b in dp) or tp[1] is not None)
+    docs, vocab = table_docs(rng, phrases=(stage == "ngram" and rng.random() < 0.5))
+    if stage == "unigram":
+        entry = UNIGRAM_ROTATION[(i if rot is None else rot) % len(UNIGRAM_ROTATION)]
+        step = shape_step(rng, entry, docs, vocab)
+        ng, level = None, step["docs"]
+    else:
+        entry, gn, beh = NGRAM_ROTATION[(i if rot is None else rot) % len(NGRAM_ROTATION)]
+        ng = {"n": gn, "behaviour": beh}
+        step = shape_step(rng, entry, docs, vocab)
+        level = [py_ngrams(d, gn, beh) for d in step["docs"]]
+    docs = step["docs"]
+    counts, dcounts = count_tables(level)
+    n, nd = sum(len(d) for d in level), len(docs)
+    tv = target_values(rng, level, docs) if ((single or rng.random() < 0.7) and not single_max) else None
+    if single_max:
+        # the commonest tokens are masked; the n-grams of the mask are then commoner than the bound
+        counts, dcounts = count_tables(docs)
+        n = sum(len(d) for d in docs)
+
+    def value(b):
+        """(k, total) for bound b"""
+        low = b.startswith("min")
+        if tv:
+            k, tot = tv[b]
+            return max(0, k + rng.choice([0, 0, 0, 0, 0, 0, -1 if low else 1, -1 if low else 1, 1 if low else -1])), tot
+        return boundary(rng, set((dcounts if "doc" in b else counts).values()), low or single_max), \
+            (nd if "doc" in b else max(n, 1))
+
+    cfg = _cfg()
+    for b in dp:
+        k, tot = value(b)
+        cfg[b] = k if b.endswith("occ") else k / tot
+    for side in ("min", "max"):
+        if side + "_dococc" in dp and side + "_docfreq" in dp:
+            cfg[side + "_docfreq"] = cfg[side + "_dococc"] / nd       # given twice: they must agree
+    for side, kind in zip(("min", "max"), tp):
+        if kind in ("occ", "both"):
+            k, tot = value(side + "_occ")
+            cfg[side + "_occ"] = k
+            if kind == "both":
+                cfg[side + "_freq"] = k / max(n, 1)                   # unigram stage only: n = number of tokens
+        elif kind == "freq":
+            k, tot = value(side + "_freq")
+            f = k / tot
+            cfg[side + "_freq"] = f if rng.random() < 0.7 else f * (0.999 if side == "min" else 1.001)
+    if rng.random() < 0.15 and entry != "tree" and not single:
+        cfg["max_unique"] = rng.randint(1, len(counts) + 1)
+    if rng.random() < 0.15 and not single:
+        cfg["excluded"] = rng.sample(vocab, 1)
+    case = {"kind": "vocab", "entry": entry, "cfg": cfg, "dict": None, "mask": None,
+            "excl_type": rng.choice(["set", "list", "frozenset"]), "table": [stage, list(dp), list(tp)]}
+    if ng:
+        case["ngram"] = ng
+    # a maximum can only bite on the second stage through n-grams of the mask (an n-gram is never
+    # commoner than its tokens): mask mode for half of the n-gram cases
+    if entry == "timed" or single_max or (rng.random() < (0.5 if ng else 0.2) and entry not in ("skipgram", "prune")):
+        case["mask"] = "MASK"
+    case.update(step)
     return case
+
+
+def table_cases(rng, reps):
+    """Block 1: every subset of the four document bounds x every (min side, max side) choice among none /
+    occurrences / frequency / both (consistent), for unigram vocabularies through the eight single-stage entry points
+    in rotation and — 'both' excluded, see gen_case — for n-gram vocabularies; bound values on the boundaries of the
+    counts of the stage they bite on: around one target item that survives the combination (70 %), or drawn
+    independently.  Block 2: each of the eight bounds as the ONLY constraint, through every entry point, both stages
+    (a bound that one code path forgets when it stands alone shows here)."""
+    out, i = [], 0
+    for rep in range(reps):
+        for stage in ("unigram", "ngram"):
+            for dp in DOC_PATTERNS:
+                for tp in TOK_PATTERNS:
+                    if stage == "ngram" and "both" in tp:
+                        continue
+                    i += 1
+                    out.append(table_case(rng, i, stage, dp, tp))
+            # block 2: every entry point x each bound alone (each preprocess_* copy and each vectorizer decides on its
+            # own whether document frequencies are computed)
+            rotation = UNIGRAM_ROTATION if stage == "unigram" else NGRAM_ROTATION
+            for rot in range(len(rotation)):
+                for rep2 in range(1 if stage == "unigram" else 2):
+                    for b in DOC_BOUNDS:
+                        i += 1
+                        out.append(table_case(rng, i, stage, (b,), (None, None), single=True, rot=rot))
+                    for tp in ((("occ", None), (None, "occ"), ("freq", None), (None, "freq"))):
+                        i += 1
+                        out.append(table_case(rng, i, stage, (), tp, single=True, rot=rot))
+    return out
+
+
+# ---- histories: successive calls that share the parameter objects
+HISTORY_ENTRIES = ("preprocess", "prune", "ngram1", "ngram2", "cooc", "skipgram", "ngramcooc", "timed", "multi", "tree")
+
+
+def gen_history(rng, i):
+    """Two or three calls through one entry point with the SAME excluded_tokens object (a set, a list or a
+    frozenset), the same token_dictionary object when one is supplied, and — for the estimators, half of the time —
+    the same estimator object refitted.  The later corpora reuse the vocabulary of the first: either the first corpus
+    with its tokens renamed by a permutation (what one fit prunes another must keep, under the same bounds) or a
+    fresh draw."""
+    entry = HISTORY_ENTRIES[i % len(HISTORY_ENTRIES)]
+    while True:
+        base, vocab = gen_case_vocab(rng)
+        if len(vocab) >= 2 and isinstance(vocab[0], str) == (i % 7 != 0):
+            break
+    docs, cfg = base["docs"], base["cfg"]
+    ints = not isinstance(vocab[0], str)
+    if cfg["excluded"] is None and rng.random() < 0.75:
+        pool = list(vocab) + ([99] if ints else ["zzz"])
+        cfg["excluded"] = rng.sample(pool, rng.randint(0, min(2, len(pool))))
+    if all(cfg[b] is None for b in BOUNDS) and cfg["regex"] is None:
+        counts, _ = count_tables(docs)                      # something besides the excluded set must prune
+        cfg["min_occ"] = boundary(rng, set(counts.values()) or {1}, True) + 1
+    if entry in NGRAM_ENTRIES:
+        for occ, frq in (("min_occ", "min_freq"), ("max_occ", "max_freq")):
+            if cfg[occ] is not None and cfg[frq] is not None:
+                cfg[frq] = None
+    if entry == "tree":
+        cfg["max_unique"] = None
+    case = {"kind": "history", "entry": entry, "cfg": cfg, "dict": None, "mask": None,
+            "excl_type": ("set", "set", "list", "frozenset")[(i // len(HISTORY_ENTRIES)) % 4],
+            "share": "estimator" if (entry in ESTIMATOR_ENTRIES and rng.random() < 0.5) else "objects"}
+    if entry == "timed" or (rng.random() < 0.25 and entry not in ("skipgram", "prune")):
+        case["mask"] = -77 if ints else "MASK"
+    if entry in GIVEN_DICT_ENTRIES and rng.random() < 0.15:
+        pool = list(vocab) + ([50, 51] if ints else ["x1", "x2"])
+        ks = rng.sample(pool, rng.randint(1, len(pool)))
+        case["dict"] = [[k, j] for j, k in enumerate(ks)]
+    if entry in NGRAM_ENTRIES:
+        case["ngram"] = {"n": rng.choice([2, 2, 3]), "behaviour": "exact" if entry != "ngram2" else rng.choice(["exact", "subgrams"])}
+    steps = []
+    for s in range(rng.choice([2, 2, 3])):
+        if s == 0:
+            d = docs
+        elif rng.random() < 0.6:
+            perm = list(vocab)
+            while perm == list(vocab):
+                rng.shuffle(perm)
+            ren = dict(zip(vocab, perm))
+            d = [[ren[t] for t in doc] for doc in docs]
+        else:
+            weights = [rng.choice([1, 1, 2, 3, 5]) for _ in vocab]
+            d = [rng.choices(vocab, weights, k=max(len(doc), rng.choice([0, 1, 3]))) for doc in docs]
+        step = shape_step(rng, entry, d, vocab)
+        if rng.random() < 0.15 and entry not in NGRAM_ENTRIES:
+            step["shuffle_seed"] = rng.randint(0, 10 ** 6)
+        steps.append(step)
+    case["steps"] = steps
+    return case
+
+
+def expand(case):
+    """The calls of a case as independent single-call cases: what each call must return is a function of its own
+    corpus and of the parameter values as configured."""
+    if case["kind"] != "history":
+        return [case]
+    head = {k: v for k, v in case.items() if k != "steps"}
+    return [dict(head, kind="vocab", **st) for st in case["steps"]]
 
 
 def _cfg(**kw):
@@ -377,20 +746,33 @@ def _cfg(**kw):
     return c
 
 
+_FOO = [["foo", "bar", "pok", "foo"], ["bar", "wer", "foo"], ["pok", "foo", "wer", "wer"]]
 CORPUS = [
     # the library's own test corpus with its six pruning settings
-    {"kind": "vocab", "entry": "preprocess", "dict": None, "mask": None, "cfg": _cfg(min_occ=2),
-     "docs": [["foo", "bar", "pok", "foo"], ["bar", "wer", "foo"], ["pok", "foo", "wer", "wer"]]},
-    {"kind": "vocab", "entry": "cooc", "dict": None, "mask": None, "cfg": _cfg(max_unique=2),
-     "docs": [["foo", "bar", "pok", "foo"], ["bar", "wer", "foo"], ["pok", "foo", "wer", "wer"]]},
+    {"kind": "vocab", "entry": "preprocess", "dict": None, "mask": None, "cfg": _cfg(min_occ=2), "docs": _FOO},
+    {"kind": "vocab", "entry": "cooc", "dict": None, "mask": None, "cfg": _cfg(max_unique=2), "docs": _FOO},
     {"kind": "vocab", "entry": "preprocess", "dict": None, "mask": "MASK", "cfg": _cfg(max_freq=4 / 11, min_docfreq=2 / 3),
-     "docs": [["foo", "bar", "pok", "foo"], ["bar", "wer", "foo"], ["pok", "foo", "wer", "wer"]]},
+     "docs": _FOO},
     {"kind": "vocab", "entry": "ngram2", "dict": None, "mask": None, "cfg": _cfg(min_occ=2),
      "ngram": {"n": 2, "behaviour": "exact"}, "docs": [["a", "b", "a", "b", "c"], ["b", "a", "b"]]},
     {"kind": "vocab", "entry": "preprocess", "dict": None, "mask": None, "cfg": _cfg(min_occ=1, max_occ=1),
      "docs": [["a", "b", "b"]]},
     {"kind": "vocab", "entry": "preprocess", "dict": None, "mask": None, "cfg": _cfg(min_occ=3, min_freq=0.5),
      "docs": [["a", "b", "b"]]},
+    # each document bound alone on bigrams: ('a','b') is in 3 documents, ('b','c') in 2, ('c','a') in 1
+    {"kind": "vocab", "entry": "ngram2", "dict": None, "mask": None, "cfg": _cfg(min_dococc=2),
+     "ngram": {"n": 2, "behaviour": "exact"}, "docs": [["a", "b", "c", "a"], ["a", "b", "c"], ["c", "a", "b"]]},
+    {"kind": "vocab", "entry": "ngramcooc", "dict": None, "mask": None, "cfg": _cfg(max_dococc=2),
+     "ngram": {"n": 2, "behaviour": "exact"}, "docs": [["a", "b", "c", "a"], ["a", "b", "c"], ["c", "a", "b"]]},
+    {"kind": "vocab", "entry": "ngram2", "dict": None, "mask": None, "cfg": _cfg(min_docfreq=2 / 3),
+     "ngram": {"n": 2, "behaviour": "subgrams"}, "docs": [["a", "b", "c", "a"], ["a", "b", "c"], ["c", "a", "b"]]},
+    {"kind": "vocab", "entry": "ngram2", "dict": None, "mask": None, "cfg": _cfg(max_docfreq=2 / 3),
+     "ngram": {"n": 2, "behaviour": "exact"}, "docs": [["a", "b", "c", "a"], ["a", "b", "c"], ["c", "a", "b"]]},
+    # the whole fit of NgramCooccurrenceVectorizer (the other ngramcooc cases stop after the vocabulary)
+    {"kind": "history", "entry": "ngramcooc_fit", "dict": None, "mask": None, "cfg": _cfg(min_occ=2, excluded=["d"]),
+     "excl_type": "set", "share": "estimator", "ngram": {"n": 2, "behaviour": "exact"},
+     "steps": [{"docs": [["a", "b", "a", "b", "c", "d"], ["b", "a", "b", "c", "c"]]},
+               {"docs": [["c", "b", "c", "b", "a", "d"], ["b", "c", "b", "a", "a", "c"]]}]},
 ]
 
 
@@ -401,7 +783,7 @@ def model_view(case, m):
     if m[0] == "Err":
         return {"err": ERR_CLASS.get(m[1], "Err%d" % m[1])}
     a, b = m[1]
-    if case["entry"] == "ngram2":
+    if case["entry"] in NGRAM_ENTRIES:
         d = [[toks[t], i] for t, i in a]
         inv = {i: toks[t] for t, i in a}
         cols = [[[inv[int(x)] for x in g], i] for g, i in b]
@@ -418,11 +800,14 @@ def compare(case, got, mv):
     if "err" in got or "err" in mv:
         if got.get("err") == mv.get("err"):
             return None
-        if "err" in got and "err" not in mv and case["entry"] in ("cooc", "ngram2") and got["err"] == "ValueError":
-            empty = not [k for k, _ in mv["dict"] if k != case.get("mask")] or \
-                (case["entry"] == "ngram2" and not mv["columns"])
-            if case["entry"] == "cooc" and empty:
+        if got.get("err") == "ValueError" and case["entry"] == "cooc" and "err" not in mv:
+            if not [k for k, _ in mv["dict"] if k != case.get("mask")]:
                 return None          # "Token dictionary is empty" is raised by the vectorizer, after preprocessing
+        if got.get("err") == "ValueError" and case["entry"] in ("ngramcooc", "ngramcooc_fit"):
+            # "Token dictionary is empty" / "ngram dictionary is empty", raised by the vectorizer around the second
+            # stage (the first one before the second stage could divide an occurrence bound by its zero total)
+            if mv.get("err") == "ZeroDivisionError" or ("err" not in mv and (not mv["dict"] or not mv["columns"])):
+                return None
         return "exception mismatch: impl %s, model %s" % (got.get("err"), mv.get("err", "no error"))
     if canon(got["dict"]) != canon(mv["dict"]):
         return "dictionary: impl %r, model %r" % (got["dict"][:8], mv["dict"][:8])
@@ -525,13 +910,29 @@ def finish_sweep(ctx, sw):
                    finding_key=FINDING_LARGE)
 
 
-def evaluate(cases):
+def evaluate(cases, flat):
+    """cases: top-level cases (single calls and histories) for the implementation child; flat: their calls as
+    independent single-call cases for the model."""
     from concurrent.futures import ThreadPoolExecutor
     with ThreadPoolExecutor(max_workers=2) as ex:
         f_impl = ex.submit(C.run_impl, "c05", {"mode": "cases", "cases": cases})
-        f_model = ex.submit(C.coq_eval_sharded, "C05", HEADER, [coq_case(c) for c in cases], 200)
+        f_model = ex.submit(C.coq_eval_sharded, "C05", HEADER, [coq_case(c) for c in flat], 200)
         (impl, info), model = f_impl.result(), f_model.result()
     return impl, info, model
+
+
+def stage2_bites(case, got):
+    """For the evidence: the bounds that, taken alone, both prune and keep an n-gram of this case's second stage."""
+    if case["entry"] not in NGRAM_ENTRIES or "err" in got or case.get("dict") is not None:
+        return []
+    out = []
+    for b in BOUNDS:
+        if case["cfg"][b] is not None:
+            one = dict(case, cfg=_cfg(**{b: case["cfg"][b]}))
+            st = ngram_spec(one, {k: v for k, v in got["dict"]})["status"]
+            if any(v is True for v in st.values()) and any(v is False for v in st.values()):
+                out.append(b)
+    return out
 
 
 def run(ctx, replay=None):
@@ -539,60 +940,111 @@ def run(ctx, replay=None):
     ctx.coverage["rule"] = ("(a) exhaustive (count,total) sweep; (b) random corpora (1-6 documents, <= 8 distinct tokens, "
                             "str or int) x random constraint combinations drawn on the boundaries (occurrences = an "
                             "occurring count +-1, frequency = python's k/n, both given, max_unique around the number of "
-                            "candidates, excluded tokens, regex) through 7 entry points; non-trivial = >= 1 token occurs")
+                            "candidates, excluded tokens as set/list/frozenset, regex) through 11 entry points; "
+                            "(c) table: 16 subsets of the document bounds x 16 (unigram) / 9 (n-gram) occurrence-or-"
+                            "frequency patterns; (d) histories of 2-3 calls sharing the excluded_tokens / "
+                            "token_dictionary / estimator objects, each call judged on its own corpus with the "
+                            "original parameter values, parameter objects compared before/after every call; "
+                            "non-trivial = >= 1 token occurs")
     ctx.assumptions += ["the regex engine is the oracle re.fullmatch evaluated by the harness and passed to the model as a set",
                         "token strings are mapped to their rank in python's sorted order (the model orders integers)",
                         "frequency bounds within 2^-20 (relative) of a token's exact frequency are not judged by the "
                         "property oracle (only by the model correspondence)",
-                        "totals >= 2^24 are outside C05_equal_bound_kept; probed separately"]
+                        "totals >= 2^24 are outside C05_equal_bound_kept; probed separately",
+                        "the model takes its parameters by value (C05_excluded_unchanged, C05_history_pointwise); that the "
+                        "code does not alias/mutate the caller's objects is checked by the before/after snapshots of "
+                        "the histories, not by the model",
+                        "an occurrence and a frequency bound on the same side with ngram_size >= 2, and an occurrence "
+                        "bound when no n-gram is left, are outside the property's domain (the code raises)"]
     from concurrent.futures import ThreadPoolExecutor
     ex = ThreadPoolExecutor(max_workers=6)
-    only_sweep = bool(replay) and (replay.get("case") or {}).get("kind") != "vocab"
+    only_sweep = bool(replay) and (replay.get("case") or {}).get("kind") not in ("vocab", "history")
     sw = start_sweep(ctx, ex) if (not replay or only_sweep) else None
     if only_sweep:
         finish_sweep(ctx, sw)
         C.gate_violation(ctx)
         return ctx.finish("proof")
-    n = 400 if ctx.quick else 4000
-    cases = [replay["case"]] if replay else CORPUS + [gen_case(ctx.rng) for _ in range(n)]
-    impl, info, model = evaluate(cases)
+    n_rand, n_hist, reps = (200, 110, 1) if ctx.quick else (3000, 1200, 4)
+    if replay:
+        cases = [replay["case"]]
+    else:
+        cases = CORPUS + table_cases(ctx.rng, reps) + [gen_case(ctx.rng) for _ in range(n_rand)] \
+            + [gen_history(ctx.rng, i) for i in range(n_hist)]
+    owner, flat = [], []
+    for ci, c in enumerate(cases):
+        for si, sub in enumerate(expand(c)):
+            owner.append((ci, si))
+            flat.append(sub)
+    impl, info, model = evaluate(cases, flat)
     if sw:
         finish_sweep(ctx, sw)
-    if impl is None or len(impl) != len(cases):
-        done = len(impl) if impl else 0
+    done = len(impl) if impl else 0
+    if impl is None or done != len(cases):
         ctx.report("implementation child died (rc=%s) on case %d: %s" % (info["rc"], done, info["tail"][-400:]),
                    {"stage": "impl-crash", "case": cases[done] if done < len(cases) else None}, found_input=True)
-        impl = (impl or []) + [{"err": "crash"}] * (len(cases) - done)
-    corr_bad, n_oracle, n_corr = [], 0, 0
-    for c, got, m in zip(cases, impl, model):
+        impl = (impl or []) + [None] * (len(cases) - done)
+    results = []
+    for (ci, si), sub in zip(owner, flat):
+        r = impl[ci]
+        if r is None:
+            results.append({"err": "crash"})
+        elif cases[ci]["kind"] == "history":
+            results.append(r["steps"][si] if "steps" in r else r)        # r = {"err":…}: the estimator could not be built
+        else:
+            results.append(r)
+    corr_bad, n_oracle, n_corr, bites, changed = [], 0, 0, {}, []
+    failed_cases = set()
+    for (ci, si), c, got, m in zip(owner, flat, results, model):
+        top = cases[ci]
+        hist = top["kind"] == "history"
         sp = spec(c)
-        kind = c["entry"] + (":given" if c.get("dict") else "") + (":mask" if c.get("mask") is not None else "") \
+        kind = ("history:%s:%s:" % (top["share"], top["excl_type"]) if hist else "") + c["entry"] \
+            + (":given" if c.get("dict") else "") + (":mask" if c.get("mask") is not None else "") \
             + (":malformed" if sp.get("error") else "") + (":perm" if c.get("shuffle_seed") is not None else "")
         ctx.count_case(c, nontrivial=any(c["docs"]), kind=kind)
         for b in BOUNDS + ["max_unique", "excluded", "regex"]:
             if c["cfg"][b] is not None:
                 ctx.dist("bound:" + b)
+        if c.get("table"):
+            stage, dp, tp = c["table"]
+            ctx.dist("table:%s:doc[%s]" % (stage, ",".join(dp) or "-"))
+            ctx.dist("table:%s:tok[min=%s,max=%s]" % (stage, tp[0], tp[1]))
+        for b in stage2_bites(c, got):
+            bites[b] = bites.get(b, 0) + 1
+        where = " (call %d of a history sharing %s, excluded_tokens a %s)" % (si + 1, top["share"], top["excl_type"]) if hist else ""
+        if got.get("param_change"):
+            changed.append((ci, si, "a parameter object was changed by the call%s (%s): %s" % (where, c["entry"], got["param_change"]), got))
         fails = check_property(c, sp, got)
         n_oracle += 1
         if fails:
-            ctx.report("vocabulary violates the property (%s): %s" % (c["entry"], "; ".join(fails[:3])),
-                       {"stage": "oracle", "case": c, "actual": got, "failures": fails})
+            if ci not in failed_cases:
+                failed_cases.add(ci)
+                ctx.report("vocabulary violates the property (%s)%s: %s" % (c["entry"], where, "; ".join(fails[:3])),
+                           {"stage": "oracle", "case": top, "call": si, "call_case": c if hist else None, "actual": got,
+                            "failures": fails})
             continue
         mv = model_view(c, m)
         n_corr += 1
         diff = compare(c, got, mv)
         if diff:
-            corr_bad.append((c, got, mv, diff))
+            corr_bad.append((top, si, got, mv, diff))
+    # a changed parameter object: reported after the wrong vocabularies it leads to (histories first: there the
+    # change is what a later call sees)
+    changed.sort(key=lambda x: (cases[x[0]]["kind"] != "history", x[0], x[1]))
+    for ci, si, what, got in changed[:2]:
+        ctx.report(what, {"stage": "oracle", "case": cases[ci], "call": si, "actual": got})
+    ctx.coverage["oracle_param_objects"] = {"calls_compared_before_after": len(flat), "changed": len(changed)}
     ctx.coverage["correspondence"] = {"cases": n_corr, "disagreements": len(corr_bad),
                                       "model": "Model/K5_Vocab.v + K5_Float.v + K6_Reindex.v via vm_compute",
                                       "compared": "dictionary (token -> index), float32 frequencies bit-exactly, "
                                                   "n-gram column dictionary, exception class"}
-    ctx.coverage["oracle"] = {"cases": n_oracle}
+    ctx.coverage["oracle"] = {"cases": n_oracle, "histories": len([c for c in cases if c["kind"] == "history"]),
+                              "second_stage_bounds_that_prune_and_keep_alone": bites}
     ctx.coverage["traces_validated_against_impl"] = n_corr
     if corr_bad and not any(v["found_input"] for v in ctx.violations):
-        c, got, mv, diff = corr_bad[0]
+        top, si, got, mv, diff = corr_bad[0]
         ctx.report("model K5_Vocab and implementation disagree (no property-level failure found): %s" % diff,
                    {"stage": "correspondence", "correspondence": "Model/K5_Vocab.v <-> preprocessing.py",
-                    "case": c, "model": mv, "actual": got}, found_input=False)
+                    "case": top, "call": si, "model": mv, "actual": got}, found_input=False)
     C.gate_violation(ctx)
     return ctx.finish("proof")
